@@ -351,7 +351,29 @@ def forms_body(ctx, case):
         "ft_sh_phase_screen" if case["sh"] else "ft_phase_screen", b["r0"], b["N"], b["delta"], b["L0"], b["l0"], case["field"], case["type"]))
 
 
+# ------------------------------------------------------------------ concurrent calls from threads of one process
+
+def thread_cases(tier):
+    return [{"N": 128, "sh": False}, {"N": 128, "sh": True}, {"N": 256, "sh": False}]
+
+
+def thread_body(ctx, case):
+    """Screens for several layers generated at the same time by threads of one process (a thread pool over layers) are the
+    screens generated one after the other: each is a function of its own seeded draws only."""
+    ps = PSm()
+    f = ps.ft_sh_phase_screen if case["sh"] else ps.ft_phase_screen
+    N = case["N"]
+    ctx.case(case, nontrivial=True, classes=["sub_harmonic" if case["sh"] else "plain", "N%d" % N])
+
+    def mk(i):
+        return lambda: f(0.1 + 0.02 * i, N, 0.05, 20.0 + i, 0.01, seed=100 + i)
+    with warnings.catch_warnings():                      # (set once, outside the threads: the filter list is process-wide)
+        warnings.simplefilter("ignore")
+        ctx.thread_agreement([mk(i) for i in range(8)], "ft_sh_phase_screen" if case["sh"] else "ft_phase_screen")
+
+
 LAWS = [
+    plain_law("threads", thread_cases, thread_body, shards={"quick": 3, "thorough": 3}),
     plain_law("scalar_types", forms_cases, forms_body, shards={"quick": 2, "thorough": 2}),
     given_law("fft_object", plan_cases(), plan_body, {"quick": 60, "thorough": 600}, shards={"quick": 2, "thorough": 8}),
     given_law("hi_covariance_xl", cfgs(44), hi_body, {"quick": 0, "thorough": 2}, shards={"quick": 1, "thorough": 16}),
